@@ -200,8 +200,8 @@ def check_grammar(ctx, problems):
                  'line-grammar:' + p.kind, lineno=p.lineno, check='grammar')
 
 
-def check_lookup(ctx, model, e, rng=None):
-    """differential lookup + reachability of one entry"""
+def check_lookup(ctx, model, e, rng=None, differential=True):
+    """differential lookup + reachability of one entry (differential=False: model only, no numdb call)"""
     if len(e.low) != len(e.high):
         return
     from stdnum import numdb
@@ -213,8 +213,8 @@ def check_lookup(ctx, model, e, rng=None):
         number = prefix + v
         ctx.tick('lookup:' + ctx.name)
         want, walked = model.info(number)
-        out = E.call(db.info, number)
-        if out.kind != 'ok' or [tuple(x) for x in out.value] != [tuple(x) for x in want]:
+        out = E.call(db.info, number) if differential else None
+        if out is not None and (out.kind != 'ok' or [tuple(x) for x in out.value] != [tuple(x) for x in want]):
             ctx.fail('stdnum.numdb', 'info', [ctx.name, number], out.show(), 'model of the file: %s' % E.short(want),
                      'lookup-differs-from-file', site=out.site if out.kind == 'exc' else None, entry=e.label(),
                      lineno=e.line, check='lookup')
@@ -593,7 +593,10 @@ def _worker(task):
             e = allentries[i]
             rng = random.Random('%s/%s/%d' % (seed, name, i))
             col.nontriv('%s|%d' % (name, i))
-            check_lookup(ctx, model, e, rng)
+            # oui.dat: a numdb lookup scans 35 000 prefixes; for leaf entries the consumer call (get_manufacturer,
+            # which is numdb.info + the 'o' property of this very entry) is the differential evidence
+            heavy = name == 'oui' and 'o' in e.props and not (e.depth == 0 and e.children) and i % 16
+            check_lookup(ctx, model, e, rng, differential=not heavy)
             if consumer is not None and len(e.low) == len(e.high):
                 consumer(ctx, model, e, rng)
             elif consumer is None and start == 0 and i == 0:
